@@ -58,3 +58,10 @@ class TimeSourceContext:
                 flask.request.host_url,
                 flask.url_for('time', method=self.method))
             self.value += dict_to_cgi_params(cgi_params.time)
+
+    def to_json(self) -> dict[str, str | None]:
+        return {
+            'method': self.method,
+            'schemeIdUri': self.schemeIdUri,
+            'value': self.value,
+        }
